@@ -8,6 +8,7 @@ from . import crash
 
 def run(ctx, prefixes, nwork_q, nwork_t, depth_q, depth_t, what):
     thorough = ctx.tier == "thorough"
+    crash.design_mc(ctx)
     tr, res, nprobes, points = crash.pipeline(ctx, nwork_t if thorough else nwork_q, depth_t if thorough else depth_q,
                                               torn=True, nest_every=1 if thorough else 4)
     judge(ctx, res, tr, what, prefixes=prefixes)
@@ -28,13 +29,15 @@ def run(ctx, prefixes, nwork_q, nwork_t, depth_q, depth_t, what):
                 samples=ctx.samples, exhaustive=False,
                 events=dict(c), crash_points=points, restarts_performed=nprobes, restart_outcomes=dict(outcomes),
                 nested_crash_points=nested, torn_variants=torn, events_validated=ctx.events,
+                design_model="WalRecovery.tla (one heap page; Begin/Insert/MarkDelete/Update/Commit steps/Abort steps/FlushLog/Evict/Checkpoint/Crash with torn last log write/Redo/Undo/Flush/GC/Done; second and third crash between any two recovery steps): invariants Recovered, NoPanic, PageBehindLog exhaustive for 1 txn x 2 slots x 2 values x 2 crashes x 6 log records (thorough: also 2 txns / 1 crash, and 7 records); each of the six repaired defects (switch FALSE) is a counterexample of the same spec",
                 rule="every prefix of each workload's I/O list after the DDL is a crash point; exhaustive per workload, workloads are seeded")
 
 
 ASSUME = ["crash points are I/O-call boundaries plus torn variants of one log write; reordering of writes across the two files by the OS is not modelled",
           "single driver goroutine, background threads off (hook H2); the recording wrapper (hook H1) orders page and log writes",
           "rows carry a unique key and a fresh version per write, so a recovered row identifies its writer",
-          "TLC trace validation against CrashModel; a design-level WAL model is not part of this check"]
+          "the design-level model (WalRecovery) covers one heap page and in-place updates; multi-page heaps, relocation and index rebuild are only covered by the crash probes on the real engine",
+          "WalRecovery is bound to the code through the shared contract (CrashModel) and the defect switches, not yet through log-record-level trace validation"]
 
 
 @register("C01")
